@@ -208,6 +208,27 @@ def _shift_proj(e, loff):
     return e
 
 
+def split_generics(ty):
+    """Top-level generic arguments of `Path<A, B<C, D>, E>` -> ['A', 'B<C, D>', 'E']."""
+    i = ty.find("<")
+    if i < 0 or not ty.endswith(">"):
+        return []
+    out, depth, cur = [], 0, ""
+    for ch in ty[i + 1:-1]:
+        if ch in "<([":
+            depth += 1
+        elif ch in ">)]":
+            depth -= 1
+        if ch == "," and depth == 0:
+            out.append(cur.strip())
+            cur = ""
+        else:
+            cur += ch
+    if cur.strip():
+        out.append(cur.strip())
+    return out
+
+
 def default_inline_policy(fx):
     """Inline local, non-public, non-trait-impl plain functions and inherent methods."""
     def pol(fn):
@@ -324,6 +345,14 @@ def inline_region(fx, root_key, depth=4, policy=None, desugar=True):
             g = fx.fns.get(k) if k else None
             if g is not None and g["kind"] in ("Fn", "AssocFn") and policy(g):
                 return g, None
+            if k and "{constructor#" in k:
+                # a tuple-struct / enum-variant constructor used as a function: `x.map(Wrapper)`
+                pth = op["const"].get("fn") or ""
+                if pth in fx.adts and len(fx.adts[pth]["variants"]) == 1:
+                    return {"ctor": (pth, fx.adts[pth]["variants"][0]["name"])}, None
+                par, _, var = pth.rpartition("::")
+                if par in fx.adts and any(v["name"] == var for v in fx.adts[par]["variants"]):
+                    return {"ctor": (par, var)}, None
             return None
         pl = op.get("move") or op.get("copy")
         if pl is None or pl["p"]:
@@ -377,7 +406,7 @@ def inline_region(fx, root_key, depth=4, policy=None, desugar=True):
             if n in ("std::iter::Iterator::cloned", "std::iter::Iterator::copied") and len(node["args"]) == 1 and stages is not None:
                 op = node["args"][0]        # element-wise copies: the element's provenance is unchanged
                 continue
-            if n in ("std::iter::Iterator::map", "std::iter::Iterator::filter") and len(node["args"]) == 2:
+            if n in ("std::iter::Iterator::map", "std::iter::Iterator::filter", "std::iter::Iterator::filter_map") and len(node["args"]) == 2:
                 co = _closure_of(fn, node["args"][1])
                 if co is None or co[0]["key"] in stack or co[0]["arg_count"] != (2 if co[1] is not None else 1):
                     break
@@ -391,7 +420,7 @@ def inline_region(fx, root_key, depth=4, policy=None, desugar=True):
     def _desugar(fn, bi, nb, t, loff, boff, stack, d, inst):
         name = callee_name(t)
         kind = _DESUGAR[name]
-        if len(t["args"]) != (1 if kind == "collect" else 2):
+        if len(t["args"]) != (1 if kind == "collect" else (3 if kind == "map_or" else 2)):
             return False
         ext_stages = None
         coll_res = False
@@ -411,7 +440,7 @@ def inline_region(fx, root_key, depth=4, policy=None, desugar=True):
                 return False
             ins = cty + ("::push" if cty.endswith("Vec") else "::insert")
             ext_stages = _stages(fn, fn["blocks"][bi]["term"]["args"][0], stack)
-            if not any(sk in ("map", "filter") for (sk, _c, _e, _n) in ext_stages[0]):
+            if not any(sk in ("map", "filter", "filter_map") for (sk, _c, _e, _n) in ext_stages[0]):
                 return False
             callee, env = None, None
         elif kind == "extend":
@@ -427,14 +456,53 @@ def inline_region(fx, root_key, depth=4, policy=None, desugar=True):
             if ins is None:
                 return False
             ext_stages = _stages(fn, fn["blocks"][bi]["term"]["args"][1], stack)
-            if not any(sk in ("map", "filter") for (sk, _c, _e, _n) in ext_stages[0]):
+            if not any(sk in ("map", "filter", "filter_map") for (sk, _c, _e, _n) in ext_stages[0]):
                 return False
             callee, env = None, None
         else:
-            co = _closure_of(fn, fn["blocks"][bi]["term"]["args"][1])
+            co = _closure_of(fn, fn["blocks"][bi]["term"]["args"][1 if kind != "map_or" else 2])
             if co is None:
                 return False
             callee, env = co
+            if "ctor" in callee:
+                if kind != "map":
+                    return False
+                # opt.map(Ctor) / res.map(Ctor): Some(x) => Some(Ctor(x))
+                is_res = name.startswith("std::result::")
+                adt_p, var = callee["ctor"]
+                at0 = t["at"]
+                def _l(ty):
+                    new["locals"].append({"ty": ty, "name": None})
+                    return len(new["locals"]) - 1
+                def _b():
+                    new["blocks"].append({"origin": fn["path"], "origin_key": fn["key"], "origin_bb": bi, "inst": inst, "ret_local": loff,
+                                          "cleanup": False, "synthetic": "desugar", "stmts": [], "term": None})
+                    return len(new["blocks"]) - 1
+                def _a(blk, dst_, rv):
+                    (new["blocks"][blk] if isinstance(blk, int) else blk)["stmts"].append(
+                        {"k": "assign", "dst": dst_ if isinstance(dst_, dict) else {"l": dst_, "p": []}, "rv": rv, "at": at0, "exp": None, "synthetic": "desugar"})
+                W = "std::result::Result" if is_res else "std::option::Option"
+                okv, vi = ("Ok", 0) if is_res else ("Some", 1)
+                o = _l((t.get("arg_tys") or ["_"])[0])
+                _a(nb, o, {"k": "use", "op": t["args"][0]})
+                dl = _l("isize")
+                _a(nb, dl, {"k": "discr", "place": {"l": o, "p": []}, "pty": (t.get("arg_tys") or ["_"])[0], "adt": W,
+                            "variants": [[0, "Ok"], [1, "Err"]] if is_res else [[0, "None"], [1, "Some"]]})
+                Bd, X = _b(), _b()
+                nb["term"] = {"k": "switch", "discr": {"move": {"l": dl, "p": []}}, "discr_ty": "isize", "arms": [[vi, Bd]], "otherwise": X,
+                              "at": at0, "exp": None, "synthetic": "desugared-call", "callee": t.get("callee")}
+                w = _l(adt_p)
+                payload = {"move": {"l": o, "p": [{"d": okv, "vi": vi}, {"f": "0", "i": 0, "of": W + "::" + okv, "ty": "_"}]}}
+                _a(Bd, w, {"k": "agg", "agg": "adt", "adt": adt_p, "variant": var, "fields": ["0"], "ops": [payload]})
+                _a(Bd, t["dst"], {"k": "agg", "agg": "adt", "adt": W, "variant": okv, "fields": ["0"], "ops": [{"move": {"l": w, "p": []}}]})
+                new["blocks"][Bd]["term"] = {"k": "goto", "target": t["target"], "at": at0, "exp": None, "synthetic": "desugar"}
+                if is_res:
+                    _a(X, t["dst"], {"k": "agg", "agg": "adt", "adt": W, "variant": "Err", "fields": ["0"],
+                                     "ops": [{"move": {"l": o, "p": [{"d": "Err", "vi": 1}, {"f": "0", "i": 0, "of": W + "::Err", "ty": "_"}]}}]})
+                else:
+                    _a(X, t["dst"], {"k": "agg", "agg": "adt", "adt": W, "variant": "None", "fields": [], "ops": []})
+                new["blocks"][X]["term"] = {"k": "goto", "target": t["target"], "at": at0, "exp": None, "synthetic": "desugar"}
+                return True
             if callee["key"] in stack:
                 return False
             want_args = 2 if env is not None else 1
@@ -502,7 +570,7 @@ def inline_region(fx, root_key, depth=4, policy=None, desugar=True):
             assign(bidx, cl_off + 1, rv, "arg")
 
         def emit_callee(ret_dst, ret_target):
-            cb = emit(callee, cl_off, stack | {callee["key"]}, d - 1, ret_dst=ret_dst, ret_target=ret_target, inst=cinst)
+            cb = emit(callee, cl_off, stack | {callee["key"]}, (d if callee["kind"] == "Closure" else d - 1), ret_dst=ret_dst, ret_target=ret_target, inst=cinst)
             new["inlined"].append({"callee": callee["path"], "at_block": boff + bi, "inst": cinst, "site": at, "desugared": name})
             return cb
 
@@ -571,16 +639,27 @@ def inline_region(fx, root_key, depth=4, policy=None, desugar=True):
                 nxt = block()
                 if skind == "map":
                     assign(cur_blk, s_item, use(cur_elem), "arg")
-                    scb = emit(scallee, s_off, stack | own | {scallee["key"]}, d - 1, ret_dst={"l": sret, "p": []}, ret_target=nxt, inst=sinst)
+                    scb = emit(scallee, s_off, stack | own | {scallee["key"]}, (d if scallee["kind"] == "Closure" else d - 1), ret_dst={"l": sret, "p": []}, ret_target=nxt, inst=sinst)
                     goto(cur_blk, scb)
                     cur_elem = mv(sret)
                     cur_ty = scallee["locals"][0]["ty"]
+                elif skind == "filter_map":
+                    # the closure yields Option<U>: None skips the element
+                    assign(cur_blk, s_item, use(cur_elem), "arg")
+                    tst = block()
+                    scb = emit(scallee, s_off, stack | own | {scallee["key"]}, (d if scallee["kind"] == "Closure" else d - 1), ret_dst={"l": sret, "p": []}, ret_target=tst, inst=sinst)
+                    goto(cur_blk, scb)
+                    dfm = local("isize")
+                    assign(tst, dfm, {"k": "discr", "place": {"l": sret, "p": []}, "pty": OPT + "<_>", "adt": OPT, "variants": OPT_V})
+                    switch(tst, dfm, "isize", [[1, nxt]], H)
+                    cur_elem = {"move": variant_field(sret, "Some", 1, OPT)}
+                    cur_ty = "_"
                 else:   # filter: the predicate sees a reference; a rejected element goes back to the header
                     held = local("_")
                     assign(cur_blk, held, use(cur_elem))
                     assign(cur_blk, s_item, {"k": "ref", "mut": False, "place": {"l": held, "p": []}}, "arg")
                     tst = block()
-                    scb = emit(scallee, s_off, stack | own | {scallee["key"]}, d - 1, ret_dst={"l": sret, "p": []}, ret_target=tst, inst=sinst)
+                    scb = emit(scallee, s_off, stack | own | {scallee["key"]}, (d if scallee["kind"] == "Closure" else d - 1), ret_dst={"l": sret, "p": []}, ret_target=tst, inst=sinst)
                     goto(cur_blk, scb)
                     switch(tst, sret, "bool", [[0, H]], nxt)
                     cur_elem = mv(held)
@@ -610,10 +689,12 @@ def inline_region(fx, root_key, depth=4, policy=None, desugar=True):
                     args += [mv(item, [{"f": "0", "i": 0, "of": "tuple", "ty": "_"}]), mv(item, [{"f": "1", "i": 1, "of": "tuple", "ty": "_"}])]
                 else:
                     args.append(mv(item))
+                cty_full = inner if not coll_res else (split_generics("R<" + inner)[0] if split_generics("R<" + inner) else inner)
+                elem_tys = split_generics(cty_full) or ["_"]
                 it_ = {k2: v for k2, v in t.items()}
                 it_.update({"callee": ins, "callee_full": ins, "callee_crate": "alloc", "generics": [], "trait": None, "resolved": None,
                             "resolved_full": None, "resolved_key": None, "callee_key": None, "resolved_kind": None, "args": args,
-                            "arg_tys": ["&mut " + (inner if not coll_res else inner.rsplit(",", 1)[0])] + ["_"] * (len(args) - 1),
+                            "arg_tys": ["&mut " + cty_full] + [(elem_tys[j] if j < len(elem_tys) else "_") for j in range(len(args) - 1)],
                             "dst": {"l": scratch, "p": []}, "target": H, "unwind": None, "synthetic": "desugar", "desugared_from": name})
                 new["blocks"][cur_blk]["term"] = it_
                 if coll_res:
@@ -698,6 +779,13 @@ def inline_region(fx, root_key, depth=4, policy=None, desugar=True):
         nb["term"]["callee"] = t.get("callee")
         bind_env(Bd)
         assign(Bd, p_item, use({"move": variant_field(o, "Ok" if is_res else "Some", 0 if is_res else 1, RES if is_res else OPT)}), "arg")
+        if kind in ("is_and", "map_or"):
+            # opt.is_some_and(f) / res.is_ok_and(f): f(x) on the payload, false otherwise;  opt.map_or(default, f): f(x), default otherwise
+            cb = emit_callee(dst, target)
+            goto(Bd, cb)
+            assign(X, dst, const_bool(False) if kind == "is_and" else use(t["args"][1]))
+            goto(X, target)
+            return True
         if kind == "and_then":
             cb = emit_callee(dst, target)
         else:
@@ -724,6 +812,8 @@ _DESUGAR = {
     "std::iter::Iterator::collect": "collect",
     "std::iter::Iterator::for_each": "for_each", "std::iter::Iterator::any": "any", "std::iter::Iterator::all": "all",
     "std::iter::Iterator::find": "find", "std::iter::Iterator::try_for_each": "try_for_each",
+    "std::option::Option::is_some_and": "is_and", "std::result::Result::is_ok_and": "is_and",
+    "std::option::Option::map_or": "map_or", "std::result::Result::map_or": "map_or",
     "std::option::Option::map": "map", "std::option::Option::and_then": "and_then",
     "std::result::Result::map": "map", "std::result::Result::and_then": "and_then",
 }
